@@ -383,8 +383,9 @@ where
                 let failed = AtomicBool::new(false);
                 let first_fail: Mutex<Option<Verdict>> = Mutex::new(None);
                 let result = runner.run(&strategy, |case| {
-                    if stop.load(Ordering::Relaxed) && !failed.load(Ordering::Relaxed) {
-                        // another worker found a violation; finish quickly
+                    if stop.load(Ordering::Relaxed) {
+                        // another worker has already reported a shrunk violation: finish quickly
+                        // (also ends an ongoing shrink of this worker at its current candidate)
                         return Ok(());
                     }
                     let n = ctx.case_counter.fetch_add(1, Ordering::Relaxed);
